@@ -57,6 +57,14 @@ def run(idx, rep, tier):
         for r in rets:
             t = te.eval_in(fi, r.value)
             hyp = guard_hyps(idx, fi, r)
+            if len(kinds) > 1:
+                # a rule typed by a union of kinds: the isinstance tests on the way to this exit say which member it serves
+                here = set(kinds)
+                for t_, pol in df.branch_conditions(r, fi.node):
+                    if isinstance(t_, ast.Call) and isinstance(t_.func, ast.Name) and t_.func.id == "isinstance" and len(t_.args) == 2 and ast.unparse(t_.args[0]) == a:
+                        cl = {ast.unparse(c).split(".")[-1] for c in (t_.args[1].elts if isinstance(t_.args[1], ast.Tuple) else [t_.args[1]])}
+                        here = here & cl if pol else here - cl
+                defs = {sym(a): KIND_DEF[next(iter(here))](a)} if len(here) == 1 and next(iter(here)) in KIND_DEF else {}
             ok = equal(t, want, hyp, defs)
             hy = (" under " + ", ".join(sorted(f"{h[0]}({show(h[1])})" for h in hyp))) if hyp else ""
             rep.decide(ok, "function-rule", construct, f"returns {show(norm(expand(t, defs), hyp))}; required {fp}({show(norm(expand(sym(a), defs), hyp))}) = {show(norm(expand(want, defs), hyp))}{hy}"
@@ -282,6 +290,28 @@ def generic_pow(idx, rep, rule, te):
         return isinstance(t, ast.Call) and ast.unparse(t.func).endswith("isclose") and len(t.args) >= 2 and \
             ((al in df.names_in(t.args[0]) and is_k(t.args[1])) or (al in df.names_in(t.args[1]) and is_k(t.args[0])))
 
+    # a name that holds the rounded exponent when alpha is close to it and None otherwise (`k = nearest if isclose(alpha, nearest) else None`,
+    # also as the result of a helper): `k is not None` then IS the closeness test
+    guarded = set()
+    for name_, vals in asg.items():
+        vals = [(v, st) for v, p_, st in vals if p_ is None and not isinstance(v, ast.AugAssign)]
+        if len(vals) != 2:
+            continue
+        kv = [(v, st) for v, st in vals if is_k(v)]
+        nv = [(v, st) for v, st in vals if isinstance(v, ast.Constant) and v.value is None]
+        if len(kv) == 1 and len(nv) == 1:
+            cs = [(df.normalise_test(df.resolve_value(src, t) if isinstance(t, ast.Name) else t, pol)) for t, pol in df.branch_conditions(kv[0][1], src)]
+            cn = [(df.normalise_test(df.resolve_value(src, t) if isinstance(t, ast.Name) else t, pol)) for t, pol in df.branch_conditions(nv[0][1], src)]
+            if any(pol and is_close_test(t) for t, pol in cs) and any((not pol) and is_close_test(t) for t, pol in cn):
+                guarded.add(name_)
+    knames |= guarded
+
+    def is_not_none_test(t, pol):
+        if isinstance(t, ast.Compare) and len(t.ops) == 1 and isinstance(t.left, ast.Name) and t.left.id in guarded \
+                and isinstance(t.comparators[0], ast.Constant) and t.comparators[0].value is None:
+            return (isinstance(t.ops[0], ast.IsNot) and pol) or (isinstance(t.ops[0], ast.Is) and not pol)
+        return False
+
     def k_values(conds):
         """the integers in a window that satisfy every comparison of k with constants among the conditions"""
         allowed = set(range(-40, 41))
@@ -315,7 +345,7 @@ def generic_pow(idx, rep, rule, te):
                 work += [(v, pol) for v in t2.values]  # a true conjunction / a false disjunction: every part holds with that polarity
                 continue
             conds.append((t2, pol))
-        close = any(pol and is_close_test(t) for t, pol in conds)
+        close = any(pol and is_close_test(t) for t, pol in conds) or any(is_not_none_test(t, pol) for t, pol in conds)
         ks = k_values(conds)
         # ---- classify the exit by the value it returns
         if isinstance(rv, ast.Call) and ast.unparse(rv.func) == "apply_unary":
@@ -360,11 +390,23 @@ def generic_pow(idx, rep, rule, te):
             count = rv.args[0].right if isinstance(rv.args[0].left, ast.List) else rv.args[0].left
             count = df.resolve_value(src, count)
             ok = is_k(count) and bool(ks) and min(ks) >= 1
+            fold_txt = ""
             if ok and helper is not None and helper.kind == "funcs":
-                body = ast.unparse(helper.val[-1].node)
-                ok = "reduce" in body and "@" in body
+                # what the folding helper computes, read off by running it on [X1, X2, X3]: the left-to-right matrix product
+                from sa.minieval import Mini, Undecided, flatten_mm
+                hf = helper.val[-1]
+                def resolve_call(c_, hf=hf):
+                    r_ = idx.resolve_expr(hf.module, c_.func, hf)
+                    return r_.val[-1].node if r_ is not None and r_.kind == "funcs" and getattr(r_.val[-1], "rule", None) is None else None
+                try:
+                    got = Mini(resolve_call).run(hf.node, [["X1", "X2", "X3"]])
+                    ok = flatten_mm(got) == ["X1", "X2", "X3"]
+                    if not ok:
+                        fold_txt = f"; the helper `{hf.short}` maps [X1, X2, X3] to {' @ '.join(map(str, flatten_mm(got)))}"
+                except Undecided as ex:
+                    ok, fold_txt = None, f"; the helper `{hf.short}` is outside the executed fragment ({ex})"
             rep.decide(ok, "pow-shortcut", label, f"A^k for k in [{min(ks) if ks else '?'}, {max(ks) if ks else '?'}] is the k-fold product of A" if ok else
-                       f"integer shortcut returns `{ast.unparse(rv)[:50]}` for k in {sorted(ks)[:4]}...", detail="" if ok else "product", locs=rloc)
+                       f"integer shortcut returns `{ast.unparse(rv)[:50]}` for k in {sorted(ks)[:4]}..." + fold_txt, detail="" if ok else "product", locs=rloc)
         elif kind_ == "identity":
             ok = ks == need
             rep.decide(ok, "pow-shortcut", label, "A^0 returns I" if ok else f"the identity is returned for k in {sorted(ks)[:6]}", detail="" if ok else "identity", locs=rloc)
